@@ -43,7 +43,8 @@ fn decls_of(tag: &TagInfo) -> HashMap<Option<String>, Option<String>> {
         if !is_decl(&a) {
             continue;
         }
-        if a.value == XMLNS_NS {
+        let value = crate::gen::xml::uri_value(&a.value);
+        if value == XMLNS_NS {
             continue; // may not be declared
         }
         let key = if a.prefix.is_none() { None } else { Some(a.local.clone()) };
@@ -55,7 +56,7 @@ fn decls_of(tag: &TagInfo) -> HashMap<Option<String>, Option<String>> {
             continue;
         }
         // attribute values in the generator's pools for URIs contain no references
-        m.insert(key, if a.value.is_empty() { None } else { Some(a.value.clone()) });
+        m.insert(key, if value.is_empty() { None } else { Some(value) });
     }
     m
 }
